@@ -97,7 +97,8 @@ def tables() -> str:
             if t == "message":
                 for d in ast.walk(v):
                     if isinstance(d, ast.Dict):
-                        msg_keys += [ast.literal_eval(k) for k in d.keys]
+                        # a literal key, or the variable holding the event's base language
+                        msg_keys += [(ast.literal_eval(k) if isinstance(k, ast.Constant) else ("var", k.id)) for k in d.keys]
             if t == "base_language":
                 for b in ast.walk(v):
                     if isinstance(b, ast.BoolOp) and isinstance(b.op, ast.Or) and isinstance(b.values[-1], ast.Constant):
@@ -126,6 +127,8 @@ def tables() -> str:
                                 "rpft.parsers.creation.triggerrowmodel")
 
     h = hours[0]
+    # none = keyed by the variable base_language; some k = a literal key
+    msg_key_lean = "none" if msg_keys[0] == ("var", "base_language") else f"some {lean_str(msg_keys[0])}"
     return (
         f"def campaignUnits : List (List Char) := {lean_str_list(units)}\n"
         f"def campaignStartModes : List (List Char) := {lean_str_list(start_modes)}\n"
@@ -137,7 +140,7 @@ def tables() -> str:
         f"def triggerCtorKeyword : List Char := {lean_str(trig_k)}\n"
         f"def triggerDefaultMatch : List Char := {lean_str(dm[0])}\n"
         f"def fieldKeyMaxLen : Nat := {limits[0]}\n"
-        f"def campaignMessageKey : List Char := {lean_str(msg_keys[0])}\n"
+        f"def campaignMessageKey : Option (List Char) := {msg_key_lean}\n"
         f"def campaignDefaultLang : List Char := {lean_str(langs[0])}\n"
         f"def campaignDefaultHour : Int := {'-' + str(-h) if h < 0 else str(h)}\n"
         f"def campaignRowFields : List (List Char × Bool) := {_lean_fields(camp_fields)}\n"
